@@ -47,6 +47,8 @@ def main():
                 caught.append("%s:%s%s (%.0fs)" % (p, "CAUGHT" if viol else "missed", " (%d with input, %d without)" % (len(viol) - len(nf), len(nf)) if viol else "", time.time() - t0))
             rows.append((sid, meta["property"], " ".join(caught), meta.get("needs", "")[:80]))
         finally:
+            # reverse the patch (removes files the patch added), then restore anything left
+            sh("git -C %s apply -R %s" % (REPO, patch))
             sh("git -C %s checkout -- ." % REPO)
     shutil.rmtree(os.path.join(VERIF, "evidence"))
     shutil.copytree(os.path.join(keep, "evidence"), os.path.join(VERIF, "evidence"))
